@@ -136,7 +136,7 @@ theorem copyRange_agree {r : Bytes} {len st en : Nat} (hlen : len < u64Mod)
             simp only [parseU64_digits hcond'.1 hf hfl, hcond2.1, if_false, parseU64_digits hcond2.1 hl hll]
           · simp [hb] at h
 
-/-- `upload_part_copy` comparable: any part number (outside 1..10000: `InvalidArgument` on both sides since 531fc88; before:
+/-- `upload_part_copy` comparable: any part number (outside 1..10000: `InvalidArgument` on both sides since 205d9a8; before:
     fs:part-number-not-validated); otherwise the upload does not exist
     (`NoSuchUpload` on both sides) or was created for this bucket and key [else fs:upload-not-bound-to-key], source names agree (a missing source bucket is
     inside since cc244fc: `NoSuchBucket` on both sides), the source is not a directory and its size fits `i64`; a
